@@ -912,6 +912,24 @@ def _copyprop(fn):
                 sub[i:i + 2] = new
                 changed = True
                 break
+    # `a, b = (x, y)`: two assignments, when no target is read by a later element
+    for node, fld, sub in list(lists(fn)):
+        i = 0
+        while i < len(sub):
+            a = sub[i]
+            if isinstance(a, ast.Assign) and len(a.targets) == 1 and isinstance(a.targets[0], ast.Tuple) and isinstance(a.value, ast.Tuple) \
+                    and len(a.targets[0].elts) == len(a.value.elts) and all(isinstance(t, ast.Name) for t in a.targets[0].elts):
+                tn = [t.id for t in a.targets[0].elts]
+                safe = all(not any(isinstance(y, ast.Name) and y.id == tn[j] for y in ast.walk(a.value.elts[k]))
+                           for j in range(len(tn)) for k in range(j + 1, len(tn)))
+                if safe:
+                    new = [ast.Assign(targets=[ast.Name(id=t, ctx=ast.Store())], value=e) for t, e in zip(tn, a.value.elts)
+                           if not (isinstance(e, ast.Name) and e.id == t)]
+                    sub[i:i + 1] = new or [ast.Pass()]
+                    changed = True
+                    i += len(new) or 1
+                    continue
+            i += 1
     # renaming locals
     for node, fld, sub in list(lists(fn)):
         i = 0
